@@ -215,6 +215,8 @@ func TestVerifDynamic(t *testing.T) {
 	keys := []string{"profile", "label", "name", "comm"}
 	// paths of the record: the documented noise of abstractions/base is dropped, others kept
 	names := map[string]bool{"/home/u/file": false, "/etc/passwd": false, "/usr/lib/foo/plugins/libbar.so": false, "/etc/foo/modules.d/bar.so.conf": false,
+		// names no documented noise rule covers: every class of place the property quantifies over keeps its records
+		"/proc/1234/maps": false, "/proc/meminfo": false, "/sys/devices/system/cpu/online": false, "/run/user/1000/bus": false, "/tmp/x": false, "/var/lib/app/db.sqlite": false, "/usr/bin/cat": false, "/opt/app/bin/run": false,
 		"/etc/ld.so.cache": true, "/usr/lib/libc.so.6": true, "/usr/share/locale/fr/app.mo": true, "/usr/share/zoneinfo/UTC": true, "/dev/null": true, "/dev/urandom": true}
 	evals, viol := 0, 0
 	first := ""
@@ -284,7 +286,7 @@ func TestVerifDynamic(t *testing.T) {
 	r := runDynamic(env, "pkg/logs", "C14/GetApparmorLogs-filter-grammar", src)
 	r.Name = "bounded/C14/GetApparmorLogs-filter-grammar"
 	r.Kind, r.Backend = "bounded", "go test, exhaustive over the stated record grammar"
-	r.Detail = strings.Replace(r.Detail, "dynamic (not a proof)", "bounded stand-in (not a proof; grammar: 2 filters x 3 line prefixes x 6 statuses x 4 keys x 4 values, plus 10 paths (6 documented noise paths, 4 others) crossed with the first value and prefix, plus 4 record pairs (blanks inside a value, time stamp and pid only, different names))", 1)
+	r.Detail = strings.Replace(r.Detail, "dynamic (not a proof)", "bounded stand-in (not a proof; grammar: 2 filters x 3 line prefixes x 6 statuses x 4 keys x 4 values, plus 18 paths (6 documented noise paths, 12 others under /home, /etc, /usr, /proc, /sys, /run, /tmp, /var, /opt) crossed with the first value and prefix, plus 4 record pairs (blanks inside a value, time stamp and pid only, different names))", 1)
 	return r
 }
 
@@ -629,8 +631,8 @@ func verifExpand(vars map[string][]string, s string, depth int) ([]string, error
 }
 
 func TestVerifDynamic(t *testing.T) {
-	vars := map[string][]string{"a": {"x", "y"}, "b": {"@{a}/1", "z"}, "c": {"/r/", "/s"}, "e": {"m", "n", "o"}, "f": {"@{g}/x"}, "g": {"@{h}/y", "/w"}, "h": {"/z"}, "A": {"UP"}}
-	inputs := []string{"@{f}", "/opt/@{f}/bin", "@{A}/@{a}", "@{E}", "/lit//eral", "@{a}", "/p/@{a}", "@{a}/@{a}", "@{b}", "@{c}/q", "@{a}@{c}", "@{b}/@{a}", "/no/var", "@{c}@{c}", "@{e}", "/@{e}/@{a}/@{e}", "@{nope}/x", "@{a}/@{nope}", "@{s}"}
+	vars := map[string][]string{"a": {"x", "y"}, "b": {"@{a}/1", "z"}, "c": {"/r/", "/s"}, "e": {"m", "n", "o"}, "f": {"@{g}/x"}, "g": {"@{h}/y", "/w"}, "h": {"/z"}, "A": {"UP"}, "lib32": {"/usr/lib32"}, "x_2y": {"q", "r"}}
+	inputs := []string{"@{f}", "/opt/@{f}/bin", "@{A}/@{a}", "@{E}", "/lit//eral", "@{a}", "/p/@{a}", "@{a}/@{a}", "@{b}", "@{c}/q", "@{a}@{c}", "@{b}/@{a}", "/no/var", "@{c}@{c}", "@{e}", "/@{e}/@{a}/@{e}", "@{nope}/x", "@{a}/@{nope}", "@{s}", "@{lib32}/ld.so", "/k/@{x_2y}@{a}"}
 	evals, viol := 0, 0
 	first := ""
 	for _, in := range inputs {
@@ -641,6 +643,8 @@ func TestVerifDynamic(t *testing.T) {
 		f.Preamble = append(f.Preamble, &Variable{Name: "e", Values: []string{"m"}, Define: true}, &Variable{Name: "e", Values: []string{"n", "o"}, Define: false})
 		// a variable whose name differs from another one only by case
 		f.Preamble = append(f.Preamble, &Variable{Name: "A", Values: []string{"UP"}, Define: true})
+		// names with digits and underscores, as in the shipped tunables (@{lib32}, @{int2}, @{user_share_dirs})
+		f.Preamble = append(f.Preamble, &Variable{Name: "lib32", Values: []string{"/usr/lib32"}, Define: true}, &Variable{Name: "x_2y", Values: []string{"q", "r"}, Define: true})
 		// a chain of forward references: each variable refers to one defined after it
 		f.Preamble = append(f.Preamble, &Variable{Name: "f", Values: []string{"@{g}/x"}, Define: true}, &Variable{Name: "g", Values: []string{"@{h}/y", "/w"}, Define: true}, &Variable{Name: "h", Values: []string{"/z"}, Define: true})
 		all := map[string][]string{}
@@ -671,8 +675,8 @@ func TestVerifDynamic(t *testing.T) {
 `
 	r := runDynamic(env, "pkg/aa", "C13/expansion-of-attachments", src)
 	r.Name = "bounded/C13/expansion-of-attachments"
-	r.Kind, r.Backend = "bounded", "go test, 19 attachment patterns over a nine-variable preamble"
-	r.Detail = strings.Replace(r.Detail, "dynamic (not a proof)", "bounded stand-in (not a proof; 19 attachment patterns: forward reference chains, names differing by case, literal //, nested, repeated and adjacent references, trailing slashes, +=, undefined and self-referential variables)", 1)
+	r.Kind, r.Backend = "bounded", "go test, 21 attachment patterns over an eleven-variable preamble"
+	r.Detail = strings.Replace(r.Detail, "dynamic (not a proof)", "bounded stand-in (not a proof; 21 attachment patterns: forward reference chains, names with digits and underscores, names differing by case, literal //, nested, repeated and adjacent references, trailing slashes, +=, undefined and self-referential variables)", 1)
 	return r
 }
 
